@@ -118,7 +118,9 @@ let sys_oracle sT ops (toks : string list) : string =
     else
       let rec go ops toks nlive = match ops, toks with
         | [], [] -> "ok"
-        | OpAlloc n :: r, "ok" :: tr -> if c15_spec_malloc_must_refuse sT n then "REJECT request beyond max_size served: a" ^ dec_of_n n else go r tr (nlive + 1)
+        | OpAlloc n :: r, "ok" :: tr ->
+          if c15_spec_unservable sT n then "REJECT returned a block for an unservable request (n*sizeof T >= 2^47 bytes): a" ^ dec_of_n n
+          else if c15_spec_malloc_must_refuse sT n then "REJECT request beyond max_size served: a" ^ dec_of_n n else go r tr (nlive + 1)
         | OpAlloc _ :: r, "bad_alloc" :: tr -> go r tr nlive
         | OpFree i :: r, "F" :: tr -> if int_of_nat i < nlive then go r tr (nlive - 1) else "REJECT free of a dead block"
         | _, t :: _ -> "REJECT unexpected " ^ t
